@@ -91,11 +91,10 @@ SPEC = {
         'AITB.POMDP3.shift_sublin', 'AITB.POMDP3.qval_shift', 'AITB.POMDP3.Hop_shift', 'AITB.POMDP3.shift_subSol_room', 'AITB.POMDP3.shift_subSol',
         'AITB.POMDP3.fibStepW_trunc_sound', 'AITB.POMDP3.promisingVal_trunc_ge', 'AITB.POMDP3.SoundT_step', 'AITB.POMDP3.anytimeT_sound',
         'AITB.POMDP3.truncW_residual', 'AITB.POMDP3.libCut_residual', 'AITB.POMDP3.massCut_residual', 'AITB.POMDP3.truncSlack_pays',
-        'AITB.POMDP3.mass_bstep_le', 'AITB.POMDP3.pointBackup_cut_sound', 'AITB.POMDP3.cut_table_residuals',
+        'AITB.POMDP3.mass_bstep_le', 'AITB.POMDP3.pointBackup_cut_sound', 'AITB.POMDP3.cut_table_residuals', 'AITB.POMDP3.libCut_diff', 'AITB.POMDP3.pointBackup_src_cut_sound',
         'AITB.POMDP3.mW_valid', 'AITB.POMDP3.mW_ref_superSol', 'AITB.POMDP3.ΓW_sound',
     ],
-    'gen_obligations': ['AITB.POMDP3.src_blind_start_is_min', 'AITB.POMDP3.src_fib_start_is_max', 'AITB.POMDP3.src_fib_inner_is_max', 'AITB.POMDP3.src_cons_no_skip', 'AITB.POMDP3.src_saw_is_repaired',
-                        'AITB.POMDP3.src_gapmin_weight_cut', 'AITB.POMDP3.src_gapmin_mass_cut'],
+    'gen_obligations': ['AITB.POMDP3.src_blind_start_is_min', 'AITB.POMDP3.src_fib_start_is_max', 'AITB.POMDP3.src_fib_inner_is_max', 'AITB.POMDP3.src_cons_no_skip', 'AITB.POMDP3.src_saw_is_repaired'],
     'harness': 'harness/c03.cpp',
     # the solvers are declared for every `IsModel`; a user-defined model without the Eigen interface is inside the quantifier
     'compile_probes': [{'src': 'harness/c03_probe_elementwise_fib.cpp', 'define': 'AITB_C03_ELEMENTWISE_FIB',
